@@ -310,13 +310,6 @@ pub fn local_reader(qos: DataReaderQos) -> DataReaderEntity<NoReader> {
     DataReaderEntity::new(InstanceHandle::new([0xEE; 16]), qos, String::new(), NoReader(Vec::new()))
 }
 
-/// Stub for `tracing::level_filters::LevelFilter::current` (the global maximum tracing level):
-/// tracing is OFF, as in a process that installed no subscriber.  Without it CBMC cannot prune the
-/// `#[tracing::instrument]` span construction, which Debug-formats every (symbolic) argument.
-pub fn tracing_off() -> tracing::level_filters::LevelFilter {
-    tracing::level_filters::LevelFilter::OFF
-}
-
 // ---- C37 reference model: DDS 1.4 §2.2.3 consistency rules and the "Changeable" column ------------
 //   RESOURCE_LIMITS  max_samples >= max_samples_per_instance            (§2.2.3.19)
 //   HISTORY          KEEP_LAST depth <= max_samples_per_instance        (§2.2.3.18)
@@ -398,3 +391,11 @@ pub fn topic_immutables_equal(a: &TopicQos, b: &TopicQos) -> bool {
         && a.ownership == b.ownership
 }
 
+
+/// Stub for `tracing::level_filters::LevelFilter::current` (the global maximum tracing level):
+/// tracing is OFF, as in a process that installed no subscriber.  (Used by other families' harnesses:
+///   #[kani::stub(tracing::level_filters::LevelFilter::current, super::support_qos::tracing_off)]
+/// keep it.)
+pub fn tracing_off() -> tracing::level_filters::LevelFilter {
+    tracing::level_filters::LevelFilter::OFF
+}
